@@ -314,7 +314,10 @@ impl Task {
         *self.prev.write().unwrap() = prev;
     }
 
+    #[cfg_attr(feature = "verif", track_caller)]
     pub fn set_state(&self, state: TaskState) {
+        #[cfg(feature = "verif")]
+        crate::verif::on_task_state(self, &state);
         if state.is_completed() {
             self.set_end_time(utils::time::time_millis());
 
@@ -332,6 +335,7 @@ impl Task {
         }
     }
 
+    #[cfg_attr(feature = "verif", track_caller)]
     pub fn set_err(&self, err: &Error) {
         *self.err.write().unwrap() = Some(err.clone());
         self.set_state(TaskState::Error);
